@@ -189,6 +189,27 @@ INFO = {
     "C18-g": (["C18"], "caught as written", None),
     "C19-g": (["C19"], "caught as written", None),
     "C20-g": (["C20"], "caught as written", None),
+    # round 8
+    "C01-h": (["C01"], "caught as written", None),
+    "C02-h": (["C02"], "missed at first", "string literals whose content reads like another kind of value (\"null\", \"true\", \"1\", block string null)"),
+    "C03-h": (["C03"], "caught as written", None),
+    "C04-h": (["C04"], "missed at first", "`absent` fields: nobody resolves them and the parent value lacks the key, named like attributes of mappings (items, keys, get, ...): the default resolver has to answer null"),
+    "C05-h": (["C05", "C06"], "caught as written", None),
+    "C06-h": (["C06"], "missed at first", "mutation: a nullable variable as an item of a list literal with non-null items, preferably under an argument that declares a default"),
+    "C07-h": (["C14"], "missed at first (history through a schema transform: decided by C14)", "C14: every input type of the source coerces a value before the operations; after a visibility transform a hidden input field must be unknown to value coercion"),
+    "C08-h": (["C08", "C04"], "missed at first (the C04-a slip a third time)", "lists of an abstract type hold the possible types in rotation (reference World; exec goldens regenerated)"),
+    "C09-h": (["C09"], "caught as written", None),
+    "C10-h": (["C10"], "missed at first", "every valid request is sent again with validators that refuse it: errors and no data, whatever was accepted before"),
+    "C11-h": (["C11"], "caught as written", None),
+    "C12-h": (["C12"], "caught as written", None),
+    "C13-h": (["C13"], "caught as written (the inverse of fix 727499b; its generator extension catches it)", None),
+    "C14-h": (["C14"], "caught as written", None),
+    "C15-h": (["C14"], "missed at first (history through a schema transform: decided by C14)", "C14: a hidden directive must be absent from the introspection of the result"),
+    "C16-h": (["C16"], "caught as written", None),
+    "C17-h": (["C17"], "missed at first", "source streams that only have `__anext__` (a third of the cases)"),
+    "C18-h": (["C18"], "caught as written", None),
+    "C19-h": (["C19"], "missed at first", "operations of one document declare different defaults for a variable the request leaves out (reference depth per operation)"),
+    "C20-h": (["C20"], "missed at first", "edit: an abstract result type narrowed to one of its possible object types"),
 }
 RAN_C = ("tools/confirm_seed.sh (scratch worktree of /repo HEAD, /repo itself untouched because a background thorough run was using it): "
          "demo.py on the clean tree (exit 0), patch applied, repo test-suite (1895 passed), demo.py with the change (exit 1), "
@@ -196,7 +217,7 @@ RAN_C = ("tools/confirm_seed.sh (scratch worktree of /repo HEAD, /repo itself un
 for sid, (caught, first, strengthening) in sorted(INFO.items()):
     p = os.path.join(HERE, "seeded", sid, "meta.json")
     m = json.load(open(p))
-    m["what_i_ran"] = RAN_C if sid.endswith(("-c", "-d", "-e", "-f", "-g")) else RAN
+    m["what_i_ran"] = RAN_C if sid.endswith(("-c", "-d", "-e", "-f", "-g", "-h")) else RAN
     m["caught_by_quick_checks"] = caught
     m["first_round"] = first
     if strengthening:
